@@ -1,22 +1,49 @@
 /-
-C01 helper lemmas, part 1: association lists, `cfgAt`, a counting lemma, and the
-line-by-line form of the specification reader (`runLines`).
+C01 helper lemmas, part 1: association lists, `cfgAt`, a counting lemma, and the vocabulary for
+following the MODEL reader (`Fmt.scanLine` / `readLines` / `finalState`, C02's reader model)
+over the lines the writer prints. Depends on the reader model and on the slot-store lemmas of
+`C02Store.lean` only (not on C02's specification).
 -/
 import Model.Fmt.Writer
-import Model.Spec.Format
 import Model.Spec.RoundTrip
 import Proofs.Lemmas.C02Store
-import Proofs.Lemmas.C02Spec
 
 namespace Fmt
 
+theorem lookup_filter_ne' {β : Type} (m : List (Bytes × β)) (k k' : Bytes) :
+    List.lookup k' (m.filter (fun e => !(e.1 == k))) = if k' = k then none else List.lookup k' m := by
+  induction m with
+  | nil => simp
+  | cons e es ih =>
+    obtain ⟨a, b⟩ := e
+    by_cases hak : a = k
+    · subst hak
+      simp only [List.filter_cons, beq_self_eq_true, Bool.not_true, Bool.false_eq_true, ↓reduceIte]
+      rw [ih]
+      by_cases hk : k' = a
+      · simp [hk]
+      · have hb : (k' == a) = false := by simpa using hk
+        simp [hk, List.lookup_cons, hb]
+    · have : (a == k) = false := by simpa using hak
+      simp only [List.filter_cons, this, Bool.not_false, ↓reduceIte, List.lookup_cons]
+      by_cases hk : k' = a
+      · subst hk; simp [hak]
+      · have hb : (k' == a) = false := by simpa using hk
+        simp only [hb]; exact ih
+
 theorem FC.get_erase (m : FC) (k k' : Bytes) :
     (FC.erase m k).get k' = if k' = k then none else m.get k' :=
-  Spec.Format.lookup_filter_ne m k k'
+  lookup_filter_ne' m k k'
 
 theorem FC.get_set (m : FC) (k v : Bytes) (f : Bool) (k' : Bytes) :
-    (FC.set m k v f).get k' = if k' = k then some (v, f) else m.get k' :=
-  Spec.Format.CMap.get_put m k v f k'
+    (FC.set m k v f).get k' = if k' = k then some (v, f) else m.get k' := by
+  have h := FC.get_erase m k k'
+  simp only [FC.set, FC.get, FC.erase, List.lookup_cons] at h ⊢
+  by_cases hk : k' = k
+  · subst hk; simp
+  · have : (k' == k) = false := by simpa using hk
+    simp only [this, hk, ↓reduceIte] at h ⊢
+    exact h
 
 /-- keys of the map -/
 def FC.keys (m : FC) : List Bytes := m.map (·.1)
@@ -130,73 +157,92 @@ theorem subset_of_nodup_length {α : Type} [DecidableEq α] : ∀ (A B : List α
 end Fmt
 
 namespace C01
-open Fmt Spec.Format
+open Fmt
 
-/-! ### The specification reader, line by line -/
+/-! ### following the model reader -/
 
-/-- `Spec.Format.readFrom` with the configuration threaded out. -/
-def runLines (O : Oracles) (fn : Bytes) : CMap → UnitMap → Nat → List Bytes → CMap × UnitMap × List SRec
-  | cfg, units, _, [] => (cfg, units, [])
-  | cfg, units, n, l :: ls =>
-    let r := lineRecs O fn cfg units n l
-    let r' := runLines O fn r.1 r.2.1 (n + 1) ls
-    (r'.1, r'.2.1, r.2.2 ++ r'.2.2)
-
-theorem readFrom_eq_runLines (O : Oracles) (fn : Bytes) (ls : List Bytes) :
-    ∀ cfg units n, readFrom O fn cfg units n ls =
-      ((runLines O fn cfg units n ls).2.2, (runLines O fn cfg units n ls).2.1) := by
-  induction ls with
-  | nil => intro cfg units n; rfl
-  | cons l ls ih =>
-    intro cfg units n
-    simp only [readFrom, runLines]
-    rw [ih]
-
-theorem runLines_append (O : Oracles) (fn : Bytes) (l1 l2 : List Bytes) :
-    ∀ cfg units n,
-      runLines O fn cfg units n (l1 ++ l2) =
-        (let r := runLines O fn cfg units n l1
-         let r' := runLines O fn r.1 r.2.1 (n + l1.length) l2
-         (r'.1, r'.2.1, r.2.2 ++ r'.2.2)) := by
+theorem readLines_append' (O : Oracles) (l1 l2 : List Bytes) :
+    ∀ st, readLines O st (l1 ++ l2) = readLines O st l1 ++ readLines O (finalState O st l1) l2 := by
   induction l1 with
-  | nil => intro cfg units n; simp [runLines]
-  | cons l ls ih =>
-    intro cfg units n
-    simp only [List.cons_append, runLines, List.length_cons]
-    rw [ih]
-    simp only [List.append_assoc]
-    have : n + 1 + ls.length = n + (ls.length + 1) := by omega
-    rw [this]
+  | nil => intro st; rfl
+  | cons l ls ih => intro st; simp only [List.cons_append, readLines, finalState, ih, List.append_assoc]
+
+theorem finalState_append' (O : Oracles) (l1 l2 : List Bytes) :
+    ∀ st, finalState O st (l1 ++ l2) = finalState O (finalState O st l1) l2 := by
+  induction l1 with
+  | nil => intro st; rfl
+  | cons l ls ih => intro st; simp only [List.cons_append, finalState, ih]
+
+/-- the state after a line that changed nothing but the line counter -/
+def next (st : RState) : RState := { st with line := st.line + 1 }
 
 /-- file entries only -/
 def fileOnly : Option (Bytes × Bool) → Option (Bytes × Bool)
   | some (v, true) => some (v, true)
   | _ => none
 
-/-- The reader's configuration is the writer's `fileConfig` restricted to file entries. -/
-def Link (fc : FC) (m : CMap) : Prop := ∀ k, m.get k = fileOnly (fc.get k)
+/-- The reader's configuration store satisfies its invariant and denotes the writer's
+`fileConfig` restricted to file entries. -/
+structure Link (fc : FC) (s : Store) : Prop where
+  inv : s.Inv
+  map : ∀ k, s.toMap k = fileOnly (fc.get k)
+
+theorem toMap_set {s : Store} (h : s.Inv) (key value : Bytes) (file : Bool) (k : Bytes) :
+    (s.set key value file).toMap k =
+      if k = key then (if value = [] then none else some (value, file)) else s.toMap k := by
+  unfold Store.toMap
+  rw [(Store.set_spec h key value file).2 k]
+  by_cases hk : k = key
+  · by_cases hv : value = [] <;> simp [hk, hv]
+  · simp [hk]
 
 /-- what the reader makes of a `key: value` line -/
-def KvGood (O : Oracles) (fn k v : Bytes) : Prop :=
-  ∀ m u n, lineRecs O fn m u n (kvLine k v) = (m.assign k v true, u, [])
+def KvGood (O : Oracles) (k v : Bytes) : Prop :=
+  ∀ st, scanLine O st (kvLine k v) = ({ next st with store := st.store.set k v true }, [])
 /-- `key:` deletes `key` -/
-def DelFile (O : Oracles) (fn k : Bytes) : Prop :=
-  ∀ m u n, lineRecs O fn m u n (delLine k) = (m.del k, u, [])
+def DelFile (O : Oracles) (k : Bytes) : Prop :=
+  ∀ st, scanLine O st (delLine k) = ({ next st with store := st.store.set k [] true }, [])
 /-- `key:` is ignored -/
-def DelInert (O : Oracles) (fn k : Bytes) : Prop :=
-  ∀ m u n, lineRecs O fn m u n (delLine k) = (m, u, [])
+def DelInert (O : Oracles) (k : Bytes) : Prop :=
+  ∀ st, scanLine O st (delLine k) = (next st, [])
 
-def CfgGood (O : Oracles) (fn : Bytes) (c : Cfg) : Prop :=
-  if c.file then KvGood O fn c.key c.value ∧ c.value ≠ [] ∧ DelFile O fn c.key
-  else DelFile O fn c.key ∨ DelInert O fn c.key
+def CfgGood (O : Oracles) (c : Cfg) : Prop :=
+  if c.file then KvGood O c.key c.value ∧ c.value ≠ [] ∧ DelFile O c.key
+  else DelFile O c.key ∨ DelInert O c.key
 
-def FCGood (O : Oracles) (fn : Bytes) (fc : FC) : Prop :=
+def FCGood (O : Oracles) (fc : FC) : Prop :=
   ∀ k v f, fc.get k = some (v, f) →
-    if f then DelFile O fn k else DelFile O fn k ∨ DelInert O fn k
+    if f then DelFile O k else DelFile O k ∨ DelInert O k
 
-theorem blank_inert (O : Oracles) (fn : Bytes) (m : CMap) (u : UnitMap) (n : Nat) :
-    lineRecs O fn m u n [] = (m, u, []) := by
-  simp [lineRecs, classify, Bytes.hasPrefix, benchmarkPrefix, isUnitLine, splitField, takeField,
-    skipSpaces, unitPrefix, parseKeyValueLine, kvScan]
+theorem blank_inert (O : Oracles) (st : RState) : scanLine O st [] = (next st, []) := by
+  simp [scanLine, next, Bytes.hasPrefix, benchmarkPrefix, parseKeyValueLine, kvScan]
+
+/-- The lines `out`, read from state `st`, deliver no record, leave unit metadata and file name
+alone, and leave a store linked to `fc'`. -/
+structure Block (O : Oracles) (st : RState) (out : List Bytes) (fc' : FC) : Prop where
+  quiet : readLines O st out = []
+  units : (finalState O st out).units = st.units
+  fileName : (finalState O st out).fileName = st.fileName
+  link : Link fc' (finalState O st out).store
+
+theorem block_nil (O : Oracles) {st : RState} {fc : FC} (h : Link fc st.store) : Block O st [] fc :=
+  ⟨rfl, rfl, rfl, h⟩
+
+theorem block_cons (O : Oracles) {st st1 : RState} {l : Bytes} {ls : List Bytes} {fc' : FC}
+    (h1 : scanLine O st l = (st1, [])) (hu : st1.units = st.units) (hf : st1.fileName = st.fileName)
+    (hb : Block O st1 ls fc') : Block O st (l :: ls) fc' := by
+  refine ⟨?_, ?_, ?_, ?_⟩
+  · simp only [readLines, h1, List.nil_append]; exact hb.quiet
+  · simp only [finalState, h1]; rw [hb.units, hu]
+  · simp only [finalState, h1]; rw [hb.fileName, hf]
+  · simp only [finalState, h1]; exact hb.link
+
+theorem block_append (O : Oracles) {st : RState} {l1 l2 : List Bytes} {fc1 fc2 : FC}
+    (h1 : Block O st l1 fc1) (h2 : Block O (finalState O st l1) l2 fc2) : Block O st (l1 ++ l2) fc2 := by
+  refine ⟨?_, ?_, ?_, ?_⟩
+  · rw [readLines_append', h1.quiet, h2.quiet]; rfl
+  · rw [finalState_append', h2.units, h1.units]
+  · rw [finalState_append', h2.fileName, h1.fileName]
+  · rw [finalState_append']; exact h2.link
 
 end C01
